@@ -136,10 +136,11 @@ def judge_direct(ctx, c, r, kind):
 def run(ctx):
     binary = ctx.build("vh-c26")
     n = 5 if ctx.thorough else 4
+    plan = [("value", 4, "FALSE"), ("struct", 4, "FALSE")]
+    if ctx.thorough:
+        plan = [("value", 5, "FALSE"), ("value", 3, "TRUE"), ("struct", 4, "FALSE"), ("struct", 3, "TRUE")]
     cases, seen = [], set()
-    for mode in ("value", "struct"):
-        wide = "TRUE" if ctx.thorough and mode == "struct" else "FALSE"
-        mt = n if not (ctx.thorough and mode == "struct") else 4
+    for mode, mt, wide in plan:
         for c in ctx.tlc_gen("config", "ConfigFormat_Gen", consts={"MaxToks": mt, "Mode": '"%s"' % mode, "Wide": wide}, workers=6):
             k = bytes(c["input"])
             if k not in seen:
@@ -181,12 +182,12 @@ def run(ctx):
     ctx.sample({"input": show_bytes(mid["input"]), "spec_valid": mid["valid"], "spec_listing": [show_bytes(e["name"]) for e in mid["list"]]})
 
     # binding C
-    lim = 2500 if not ctx.thorough else 40000
+    lim = 2500 if not ctx.thorough else 15000
     sub = cases if len(cases) <= lim else [cases[i] for i in sorted(ctx.rng.sample(range(len(cases)), lim))]
     audit(ctx, sub, "gen")
 
     # binding B on mutated real-world-shaped files
-    nr = 600 if not ctx.thorough else 12000
+    nr = 600 if not ctx.thorough else 5000
     rnd = [{"input": b2l(b)} for b in BASES]
     while len(rnd) < nr:
         b = mutate(ctx.rng, ctx.rng.choice(BASES))
@@ -217,9 +218,9 @@ def run(ctx):
         k = v["kind"] + ":" + "+".join(v["classes"])
         hist[k] = hist.get(k, 0) + 1
     ctx.cov["violation_classes"] = hist
-    ctx.cov["rule"] = ("A: every text of <= %d tokens over the value alphabet behind `[a]<lf>k=` and over the structure alphabet of "
-                       "ConfigFormat_Gen (exhaustive); B: %d seeded mutations of 5 real-world-shaped files. Non-trivial = gitoxide parses the "
-                       "text and it has at least one entry or is not git-valid; distinct by input bytes." % (n, nr))
+    ctx.cov["rule"] = ("A: every text of ConfigFormat_Gen for (mode, tokens, wide alphabet) in %s (exhaustive); "
+                       "B: %d seeded mutations of 5 real-world-shaped files. Non-trivial = gitoxide parses the "
+                       "text and it has at least one entry or is not git-valid; distinct by input bytes." % (plan, nr))
     ctx.assumptions += ["git 2.39.5 `config --list -z` is the reference for the transcription (audited on every run)",
                         "texts contain no NUL byte"]
 
